@@ -335,20 +335,35 @@ def store_predicates(ctx, modules):
         for expr, params in cands:
             subs = [x for x in ast.walk(expr) if isinstance(x, ast.Subscript) and isinstance(x.slice, ast.Constant) and x.slice.value == "disasm"
                     and isinstance(x.value, ast.Name) and x.value.id in params]
-            lits = {x.value for x in ast.walk(expr) if isinstance(x, ast.Constant) and isinstance(x.value, str)}
-            if not subs or not (lits & {"MSTORE", "SSTORE", "MSTORE8"}):
+            if not subs:
                 continue
             var = subs[0].value.id
             # only predicates that depend on nothing but the record's opcode
             names = {x.id for x in ast.walk(expr) if isinstance(x, ast.Name)} - {var}
-            if names:
+            genv = {}
+            for nm in sorted(names):
+                defs = [n for n in own_nodes(f.node) if isinstance(n, ast.Assign) and len(n.targets) == 1 and isinstance(n.targets[0], ast.Name) and n.targets[0].id == nm]
+                if len(defs) == 1:
+                    try:
+                        genv[nm] = ast.literal_eval(defs[0].value)
+                    except Exception:
+                        pass
+            if names - set(genv):
+                continue
+            lits = {x.value for x in ast.walk(expr) if isinstance(x, ast.Constant) and isinstance(x.value, str)}
+            for v in genv.values():
+                if isinstance(v, (tuple, list, set)):
+                    lits |= {x for x in v if isinstance(x, str)}
+                elif isinstance(v, str):
+                    lits.add(v)
+            if not (lits & {"MSTORE", "SSTORE", "MSTORE8"}):
                 continue
             fn = ast.FunctionDef(name="_p", args=ast.arguments(posonlyargs=[], args=[ast.arg(arg=var)], kwonlyargs=[], kw_defaults=[], defaults=[]),
                                  body=[ast.Return(value=expr)], decorator_list=[])
             acc = set()
             try:
                 for op in STORE_VOCAB:
-                    if Evaluator(fn).call({"disasm": op, "inpt_sk": [], "outpt_sk": [], "id": op + "_0"}):
+                    if Evaluator(fn, globals_env=genv).call({"disasm": op, "inpt_sk": [], "outpt_sk": [], "id": op + "_0"}):
                         acc.add(op)
             except (Unsupported, Raised):
                 continue
@@ -439,3 +454,106 @@ def extremes(ctx, modules=None):
             if isinstance(n, ast.Call) and call_name(n) in ("max", "min") and len(n.args) == 1 and not isinstance(n.args[0], ast.Starred) \
                     and not any(k.arg == "key" for k in n.keywords):
                 yield f, n, _elem_type(n.args[0], {}, f)
+
+
+# ------------------------------------------------------------------------------------------------------------
+def identity_comparisons(ctx, module_prefixes):
+    """(finfo, compare node, ok) for every `is` / `is not`: identity is a sound test only against the singletons None/True/False/...
+    or between type objects (`type(x) is T`); between two values (ints beyond CPython's small-int cache, strings, formulas) it
+    answers whether they are the same *object*."""
+    for f in ctx.p.functions.values():
+        if not f.module.name.startswith(tuple(module_prefixes)):
+            continue
+        for c in own_nodes(f.node):
+            if not (isinstance(c, ast.Compare) and any(isinstance(o, (ast.Is, ast.IsNot)) for o in c.ops)):
+                continue
+            sides = [c.left] + list(c.comparators)
+            singleton = any(isinstance(x, ast.Constant) and (x.value is None or isinstance(x.value, bool) or x.value is Ellipsis) for x in sides)
+            types = any(isinstance(x, ast.Call) and call_name(x) == "type" for x in sides)
+            yield f, c, singleton or types
+
+
+# ------------------------------------------------------------------------------------------------------------
+def extremum_loops(ctx, module_prefixes):
+    """Loops that accumulate an extreme:  acc = max(acc, E) / min(acc, E)  (also  if E > acc: acc = E).  Yields
+    (finfo, loop, accumulator name, [early exits inside the loop]).  The extreme over *all* elements needs the whole iteration:
+    a break / return inside such a loop makes the result depend on the order of the elements."""
+    for f in ctx.p.functions.values():
+        if not f.module.name.startswith(tuple(module_prefixes)):
+            continue
+        for loop in own_nodes(f.node):
+            if not isinstance(loop, (ast.For, ast.While)):
+                continue
+            accs = set()
+            for st in ast.walk(ast.Module(body=loop.body, type_ignores=[])):
+                if isinstance(st, ast.Assign) and len(st.targets) == 1 and isinstance(st.targets[0], ast.Name) and isinstance(st.value, ast.Call) \
+                        and call_name(st.value) in ("max", "min") and any(isinstance(a, ast.Name) and a.id == st.targets[0].id for a in st.value.args):
+                    accs.add(st.targets[0].id)
+            if not accs:
+                continue
+            exits = []
+
+            def scan(stmts, inner_loop):
+                for st in stmts:
+                    if isinstance(st, (ast.FunctionDef, ast.Lambda, ast.ClassDef)):
+                        continue
+                    if isinstance(st, ast.Break) and not inner_loop:
+                        exits.append(st)
+                    elif isinstance(st, ast.Return):
+                        exits.append(st)
+                    for fld in ("body", "orelse", "finalbody", "handlers"):
+                        sub = getattr(st, fld, None)
+                        if isinstance(sub, list):
+                            scan([x for x in sub if isinstance(x, ast.stmt)] + [y for x in sub if isinstance(x, ast.ExceptHandler) for y in x.body],
+                                 inner_loop or isinstance(st, (ast.For, ast.While)))
+            scan(loop.body, False)
+            yield f, loop, sorted(accs), exits
+
+
+# ------------------------------------------------------------------------------------------------------------
+def _fresh_value(v):
+    if isinstance(v, (ast.List, ast.Dict, ast.Set)) and not (getattr(v, "elts", None) or getattr(v, "keys", None)):
+        return True
+    if isinstance(v, ast.Call) and isinstance(v.func, ast.Name):
+        if v.func.id in ("dict", "list", "set", "OrderedDict", "defaultdict") and not v.args:
+            return True
+        if v.func.id[:1].isupper():
+            return True          # constructor
+    return False
+
+
+def co_renewed_state(ctx, module_prefixes):
+    """Per-segment state machines: names bound to fresh objects before a loop and re-bound to fresh objects inside it (a new segment /
+    block starts).  Yields (finfo, loop, group, [(statement list owner, renewed names, missing names)]): at every place where one
+    member of the group is renewed, all must be — otherwise the new segment inherits the old segment's table."""
+    for f in ctx.p.functions.values():
+        if not f.module.name.startswith(tuple(module_prefixes)):
+            continue
+        body = f.node.body
+        for li, loop in enumerate(body):
+            if not isinstance(loop, (ast.While, ast.For)):
+                continue
+            pre = {}
+            for st in body[:li]:
+                if isinstance(st, ast.Assign) and len(st.targets) == 1 and isinstance(st.targets[0], ast.Name) and _fresh_value(st.value):
+                    pre[st.targets[0].id] = st
+            if len(pre) < 2:
+                continue
+            places = []
+
+            def scan(stmts):
+                renewed = {}
+                for st in stmts:
+                    if isinstance(st, ast.Assign) and len(st.targets) == 1 and isinstance(st.targets[0], ast.Name) and st.targets[0].id in pre and _fresh_value(st.value):
+                        renewed[st.targets[0].id] = st
+                    for fld in ("body", "orelse", "finalbody"):
+                        sub = getattr(st, fld, None)
+                        if isinstance(sub, list) and sub and isinstance(sub[0], ast.stmt):
+                            scan(sub)
+                if renewed:
+                    places.append((stmts, renewed))
+            scan(loop.body)
+            group = sorted({n for _, r in places for n in r})
+            if len(group) < 2:
+                continue
+            yield f, loop, group, [(stmts, sorted(r), sorted(set(group) - set(r))) for stmts, r in places]
